@@ -679,7 +679,7 @@ impl Harness for C11 {
             &[(4, 1, 2, 4, 1), (4, 2, 2, 4, 1), (5, 1, 2, 4, 1), (6, 1, 2, 4, 1), (6, 1, 3, 4, 1), (4, 3, 2, 3, 1), (5, 2, 2, 3, 1), (6, 2, 3, 2, 1),
               (7, 1, 2, 4, 1), (7, 1, 3, 4, 3), (5, 2, 2, 4, 3), (6, 2, 2, 3, 0), (6, 2, 3, 3, 1), (8, 1, 4, 3, 3)]
         } else {
-            &[(4, 1, 2, 4, 1), (4, 2, 2, 4, 3), (5, 1, 2, 4, 1), (6, 1, 2, 4, 3), (6, 1, 3, 4, 3), (4, 3, 2, 3, 0), (5, 2, 2, 3, 0), (6, 2, 3, 2, 1)]
+            &[(4, 1, 2, 4, 1), (4, 2, 2, 4, 3), (5, 1, 2, 4, 1), (6, 1, 2, 4, 3), (6, 1, 3, 4, 3), (4, 3, 2, 2, 1), (5, 2, 2, 3, 0), (6, 2, 3, 2, 1)]
         };
         for &(n, p, k, a, part) in g {
             pl.lat(V::G, false, n, p, k, a, part);
